@@ -23,6 +23,10 @@ REPO = Path(os.environ.get("VERIF_REPO", "/repo"))
 SPEC = VERIF / "spec"
 HARNESS = VERIF / "harness"
 BUILD = VERIF / ".build"
+if "VERIF_REPO" in os.environ:
+    # a tree other than /repo (a scratch worktree with a seeded change): its own cache, so that runs against several
+    # trees at the same time do not prune each other's builds
+    BUILD = BUILD / ("alt-" + hashlib.sha256(str(REPO).encode()).hexdigest()[:10])
 TLCDIR = VERIF / ".tlc"
 EVID = VERIF / "evidence"
 REPLAYS = VERIF / "replays"
